@@ -877,3 +877,51 @@ def canonical(body):
         else:
             out.append(" " + k)
     return "\n".join(out)
+
+
+def cmp_switches(body, op_names, a_pred, b_pred):
+    """[(switch_bb, holds_target, fails_target, op)] for switches deciding the relation `a OP b`
+    (OP in op_names; a/b selected by predicates over their flattened provenance), whichever way the
+    source spells it: `a > b`, `b < a`, `!(a <= b)`, `!(b >= a)` all decide `a > b`."""
+    flip = {"Gt": "Lt", "Lt": "Gt", "Ge": "Le", "Le": "Ge", "Eq": "Eq", "Ne": "Ne"}
+    neg = {"Gt": "Le", "Le": "Gt", "Lt": "Ge", "Ge": "Lt", "Eq": "Ne", "Ne": "Eq"}
+    out = []
+    for bi, b in enumerate(body.blocks):
+        t = b["t"]
+        if t["k"] != "switch" or b.get("cleanup"):
+            continue
+        l = op_local(t["on"])
+        negated = False
+        d = None
+        for _ in range(4):
+            d = single_def(body, l) if l is not None else None
+            if d and d[2] == "assign" and d[3]["rv"]["k"] == "un" and d[3]["rv"]["op"] == "Not":
+                negated = not negated
+                l = op_local(d[3]["rv"]["a"])
+                continue
+            if d and d[2] == "assign" and d[3]["rv"]["k"] == "use" and op_local(d[3]["rv"]["a"]) is not None and not (op_place(d[3]["rv"]["a"]) or {}).get("p"):
+                l = op_local(d[3]["rv"]["a"])
+                continue
+            break
+        if not (d and d[2] == "assign" and d[3]["rv"]["k"] == "bin" and d[3]["rv"]["op"] in flip):
+            continue
+        zero = [x for v, x in t["targets"] if v == 0]
+        if not zero:
+            continue
+        op = d[3]["rv"]["op"]
+        if negated:
+            op = neg[op]
+        sa = flatten_src(provenance(body, d[3]["rv"]["a"]))
+        sb = flatten_src(provenance(body, d[3]["rv"]["b"]))
+        for want in op_names:
+            if a_pred(sa) and b_pred(sb):
+                if op == want:
+                    out.append((bi, t["otherwise"], zero[0], want)); break
+                if op == neg[want]:
+                    out.append((bi, zero[0], t["otherwise"], want)); break
+            if a_pred(sb) and b_pred(sa):
+                if op == flip[want]:
+                    out.append((bi, t["otherwise"], zero[0], want)); break
+                if op == neg[flip[want]]:
+                    out.append((bi, zero[0], t["otherwise"], want)); break
+    return out
